@@ -50,6 +50,9 @@ var switchCmd = &cobra.Command{
 		}
 
 		if createOption != "" {
+			if client.Head.Commit == nil {
+				return fmt.Errorf("fatal: not a valid object name: '%s'", client.Head.Reference)
+			}
 			prevBranch := client.Head.Reference
 			if err := client.Refs.AddBranch(client.RootGoitPath, createOption, client.Head.Commit.Hash); err != nil {
 				return fmt.Errorf("fail to create new branch %s: %w", createOption, err)
